@@ -229,7 +229,10 @@ pub fn run(rep: &mut Report) {
                         }
                     }
                     watch_begin(i as u64, 1);
-                    rules_on_both(st, &spec);
+                    // quick: on the large neighbourhoods (interacting gadget groups, > 8 vertices) only the simplifiers
+                    if !quick || spec.verts.len() <= 8 {
+                        rules_on_both(st, &spec);
+                    }
                     simps_on::<quizx::vec_graph::Graph>(st, &spec, "vec", None);
                     watch_end();
                 }
